@@ -24,12 +24,15 @@ pub const ITER_CLASS_NAME: &str = "Iter";
 const ITER_STR: NativeMetaBuilder = NativeMetaBuilder::method("str", Arity::Fixed(0));
 
 /// This might need to have a stack once we implement yield or the iterator class
-const ITER_NEXT: NativeMetaBuilder = NativeMetaBuilder::method("next", Arity::Fixed(0));
+const ITER_NEXT: NativeMetaBuilder = NativeMetaBuilder::method("next", Arity::Fixed(0))
+  .with_stack();
 const ITER_CURRENT: NativeMetaBuilder = NativeMetaBuilder::method("current", Arity::Fixed(0));
 const ITER_ITER: NativeMetaBuilder = NativeMetaBuilder::method("iter", Arity::Fixed(0));
 
-const ITER_FIRST: NativeMetaBuilder = NativeMetaBuilder::method("first", Arity::Fixed(0));
-const ITER_LAST: NativeMetaBuilder = NativeMetaBuilder::method("last", Arity::Fixed(0));
+const ITER_FIRST: NativeMetaBuilder = NativeMetaBuilder::method("first", Arity::Fixed(0))
+  .with_stack();
+const ITER_LAST: NativeMetaBuilder = NativeMetaBuilder::method("last", Arity::Fixed(0))
+  .with_stack();
 
 const ITER_TAKE: NativeMetaBuilder = NativeMetaBuilder::method("take", Arity::Fixed(1))
   .with_params(&[ParameterBuilder::new("count", ParameterKind::Number)])
@@ -54,7 +57,8 @@ const ITER_REDUCE: NativeMetaBuilder = NativeMetaBuilder::method("reduce", Arity
   ])
   .with_stack();
 
-const ITER_LEN: NativeMetaBuilder = NativeMetaBuilder::method("len", Arity::Fixed(0));
+const ITER_LEN: NativeMetaBuilder = NativeMetaBuilder::method("len", Arity::Fixed(0))
+  .with_stack();
 
 const ITER_EACH: NativeMetaBuilder = NativeMetaBuilder::method("each", Arity::Fixed(1))
   .with_params(&[ParameterBuilder::new("fun", ParameterKind::Callable)])
@@ -74,7 +78,8 @@ const ITER_ANY: NativeMetaBuilder = NativeMetaBuilder::method("any", Arity::Fixe
   .with_params(&[ParameterBuilder::new("fun", ParameterKind::Callable)])
   .with_stack();
 
-const ITER_LIST: NativeMetaBuilder = NativeMetaBuilder::method("list", Arity::Fixed(0));
+const ITER_LIST: NativeMetaBuilder = NativeMetaBuilder::method("list", Arity::Fixed(0))
+  .with_stack();
 
 const ITER_INTO: NativeMetaBuilder = NativeMetaBuilder::method("into", Arity::Fixed(1))
   .with_params(&[ParameterBuilder::new("fun", ParameterKind::Callable)])
